@@ -9,7 +9,7 @@
 (***************************************************************************)
 EXTENDS Printer, TLC, Json, FiniteSets
 
-CONSTANTS Slice, EmitOn
+CONSTANTS Slice, EmitOn, RndSeed, RndN
 VARIABLES c, lvl
 vars == <<c, lvl>>
 
@@ -288,8 +288,11 @@ ErrOperand(kind, i) ==
     [] kind = "erpan"  -> TObj(i, {"ER"}, <<>>, <<>>, <<>>, <<TStr(i + 1, P(i + 1))>>)
     [] kind = "struct" -> TStruct(i, <<UInt(i + 1), UStr(i + 2)>>, <<FALSE, TRUE>>)
     [] kind = "stpan"  -> TObj(i, {"ST"}, <<>>, <<>>, <<>>, <<TStr(i + 1, P(i + 1))>>)      \* a Stringer whose String() panics
-ErrKinds  == {"er", "erfm", "ersf", "ersm", "sfw", "stpan", "safe", "unsafe", "ernil", "nil", "int", "str", "st", "erpan", "struct"}
-QErrKinds == {"er", "erfm", "ersf", "ersm", "sfw", "ernil", "erpan", "stpan", "safe", "unsafe", "nil", "int", "str", "st", "struct"}
+    \* pre-redacted operands: inserted as they are whatever the verb (F9: also under %w)
+    [] kind = "rstr"   -> TRStr(i, P(i))
+    [] kind = "rbytes" -> TRBytes(i, P(i))
+ErrKinds  == {"er", "erfm", "ersf", "ersm", "sfw", "stpan", "safe", "unsafe", "ernil", "nil", "int", "str", "st", "erpan", "struct", "rstr", "rbytes"}
+QErrKinds == {"er", "erfm", "ersf", "ersm", "sfw", "ernil", "erpan", "stpan", "safe", "unsafe", "nil", "int", "str", "st", "struct", "rstr", "rbytes"}
 ErrRoots == LET ks == IF Slice = "errorf" THEN ErrKinds ELSE QErrKinds IN
             {<<>>} \cup {<<ErrOperand(k1, 10)>> : k1 \in ks} \cup {<<ErrOperand(k1, 10), ErrOperand(k2, 20)>> : k1 \in ks, k2 \in ks}
 \* (objects are named ints in the harness: '*' would read their handle as a width; kept out of star formats)
@@ -367,6 +370,122 @@ DirExpand(f) == {Case("Sprintf", f, <<>>, <<>>)} \cup {Case("Sprintf", f, <<a>>,
                 \cup {Case("Sprintf", f, <<a, b>>, <<>>) : a \in {x \in DirOperands : DirOK(f, x)}, b \in {x \in DirOperands2 : DirOK(f, x)}}
                 \cup {Case("Sprintf", f, <<a, b, UStr(30)>>, <<>>) : a \in {UInt(10), TInt(10, 6), SafeStr(10)}, b \in {x \in DirOperands2 : DirOK(f, x)}}
 
+\* ---- slice "rnd": RndN pseudo-random cases -- operand terms up to four levels deep over every constructor of the
+\* term language, formats assembled from literals and directives.  A case is a PURE FUNCTION of (RndSeed, index), so a
+\* run is reproducible; the systematic slices above cover classes, this one covers combinations nobody listed.
+\* H: a small multiplicative hash (all intermediate values below 2^31: TLC integers are 32 bit); n < 200000, q < 1000.
+H(n, q, s) == LET x == (n * 7919 + q * 104729 + s * 13 + RndSeed * 1299709) % 1000003
+                  y == (x * 1103 + 12347) % 999983
+              IN  (y * 2011 + q * 31 + s * 7) % 65521
+PickOf(seq, h) == seq[(h % Len(seq)) + 1]
+
+\* positions: operands 2..4, children of p are 3p-1, 3p, 3p+1 (four levels: up to 121); term id = 8 * position, the
+\* ids 8p+1 .. 8p+7 (payloads, auxiliary terms) belong to the node
+RId(p) == 8 * p
+RLeafKinds == <<"ustr", "ustr", "uint", "uint", "nil", "bool", "float", "complex", "sstr", "rstr", "rstre", "rbytes", "rbytese", "sv", "svstr",
+                "reg", "sm", "st", "st", "er", "er", "gs", "regsv", "erst", "smer", "stnilp", "ernilp", "chan", "func", "nilptr",
+                "uintn", "empty", "nlstr", "mkstr", "fm", "sf", "sfnum", "stpan", "erpan", "safestr", "unsafeint", "safesv", "rvro">>
+RLeaf(kind, i) ==
+  CASE kind = "ustr" -> TStr(i, P(i))            [] kind = "uint" -> TInt(i, 3 + i)       [] kind = "nil" -> TNil(i)
+    [] kind = "bool" -> TBool(i)                   [] kind = "float" -> TFloat(i)           [] kind = "complex" -> TComplex(i)
+    [] kind = "sstr" -> TSStr(i, P(i))             [] kind = "uintn" -> TUint(i, 7)
+    [] kind = "rstr" -> TRStr(i, P(i))             [] kind = "rbytes" -> TRBytes(i, P(i))
+    [] kind = "rstre" -> TRStr(i, P(i) \o StartM \o <<A, 98>> \o EndM \o <<A>>)
+    [] kind = "rbytese" -> TRBytes(i, P(i) \o StartM \o <<A>> \o EndM)
+    [] kind = "sv" -> TObj(i, {"SV"}, <<>>, <<>>, <<>>, <<>>)
+    [] kind = "svstr" -> TObj(i, {"SV", "ST"}, <<>>, <<>>, P(i), <<>>)
+    [] kind = "reg" -> TObj(i, {"REG"}, <<>>, <<>>, <<>>, <<>>)
+    [] kind = "regsv" -> TObj(i, {"REG", "SV", "ST"}, <<>>, <<>>, P(i), <<>>)
+    [] kind = "sm" -> TObj(i, {"SM"}, <<>>, <<>>, P(i), <<>>)
+    [] kind = "st" -> TObj(i, {"ST"}, <<>>, <<>>, P(i), <<>>)
+    [] kind = "er" -> TObj(i, {"ER"}, <<>>, <<>>, P(i), <<>>)
+    [] kind = "gs" -> TObj(i, {"GS", "ST"}, <<>>, <<>>, P(i), <<>>)
+    [] kind = "erst" -> TObj(i, {"ER", "ST"}, <<>>, <<>>, P(i), <<>>)
+    [] kind = "smer" -> TObj(i, {"SM", "ER"}, <<>>, <<>>, P(i), <<>>)
+    [] kind = "stnilp" -> TObj(i, {"ST", "NILP"}, <<>>, <<>>, P(i), <<>>)
+    [] kind = "ernilp" -> TObj(i, {"ER", "NILP"}, <<>>, <<>>, P(i), <<>>)
+    [] kind = "chan" -> TChan(i)                   [] kind = "func" -> TFunc(i)             [] kind = "nilptr" -> TNilPtr(i)
+    [] kind = "empty" -> TStr(i, <<>>)             [] kind = "nlstr" -> TStr(i, <<A, NL, A>>)
+    [] kind = "mkstr" -> TStr(i, StartM \o <<A>>)
+    [] kind = "fm" -> TObj(i, {"FM"}, <<>>, <<SWrite(<<102>> \o P(i + 1)), SWriteStr(P(i + 2))>>, <<>>, <<>>)
+    [] kind = "sf" -> TObj(i, {"SF"}, <<SSafeString(<<115>>), SUnsafeString(P(i + 1)), SSafeInt(i + 2, 12)>>, <<>>, <<>>, <<>>)
+    [] kind = "sfnum" -> TObj(i, {"SF"}, <<SSafeInt(i + 1, 12), SSafeString(<<58>>), SSafeUint(i + 2, 7), SSafeFloat(i + 3)>>, <<>>, <<>>, <<>>)
+    [] kind = "stpan" -> TObj(i, {"ST"}, <<>>, <<>>, <<>>, <<TStr(i + 1, P(i + 1))>>)
+    [] kind = "erpan" -> TObj(i, {"ER"}, <<>>, <<>>, <<>>, <<TStr(i + 1, P(i + 1))>>)
+    [] kind = "safestr" -> TSafe(i, TStr(i + 1, P(i + 1)))
+    [] kind = "unsafeint" -> TUnsafe(i, TInt(i + 1, 5))
+    [] kind = "safesv" -> TSafe(i, TObj(i + 1, {"SV", "ST"}, <<>>, <<>>, P(i + 1), <<>>))
+    \* (a reflect.Value is modelled as an operand only: inside a container it is a struct of pointers)
+    [] kind = "rvro" -> IF i <= 32 THEN TRValueRO(i, TRStr(i + 1, StartM \o <<A>> \o EndM \o P(i + 1))) ELSE TStr(i, P(i))
+\* keys of a map[interface{}]interface{}: hashable, and ordered by fmt in a way the model knows (one key per map here)
+RKeyKinds == <<"ustr", "uint", "sstr", "svstr", "st", "reg", "bool", "rstr", "er">>
+\* element kinds of statically typed slices / arrays (all elements of one Go type)
+RElemKinds == <<"rstr", "ustr", "sstr", "uint", "st", "er", "svstr", "reg", "rbytes">>
+RInnerKinds == <<"safe", "unsafe", "safe", "unsafe", "slice1", "slice2", "slice3", "map1", "map2", "mapkey", "stE", "stu", "stEE", "stEu", "stuE",
+                 "stuu", "stEuE", "stEEE", "regst", "ptrst", "ptrsl", "tslice", "tarray", "sfprint", "sfprintf", "fmprint", "stpanx", "rvalue">>
+
+RECURSIVE RGen(_, _, _)
+RGen(n, p, d) ==
+  LET i == RId(p)  h == H(n, p, 0) IN
+  IF d = 0 \/ h % 10 < 4 THEN RLeaf(PickOf(RLeafKinds, H(n, p, 1)), i)
+  ELSE
+    LET kind == PickOf(RInnerKinds, H(n, p, 2))
+        c1 == RGen(n, 3 * p - 1, d - 1)  c2 == RGen(n, 3 * p, d - 1)  c3 == RGen(n, 3 * p + 1, d - 1)
+        ek == PickOf(RElemKinds, H(n, p, 3))
+    IN CASE kind = "safe" -> TSafe(i, c1)
+         [] kind = "unsafe" -> TUnsafe(i, c1)
+         [] kind = "slice1" -> TSlice(i, <<c1>>)
+         [] kind = "slice2" -> TSlice(i, <<c1, c2>>)
+         [] kind = "slice3" -> TSlice(i, <<c1, c2, c3>>)
+         [] kind = "map1" -> TMap(i, <<TInt(i + 1, 1), c1>>)
+         [] kind = "map2" -> TMap(i, <<TInt(i + 1, 1), c1, TInt(i + 2, 2), c2>>)
+         [] kind = "mapkey" -> TMap(i, <<RLeaf(PickOf(RKeyKinds, H(n, p, 3)), RId(3 * p - 1)), c2>>)
+         [] kind = "stE" -> TStruct(i, <<c1>>, <<FALSE>>)
+         [] kind = "stu" -> TStruct(i, <<c1>>, <<TRUE>>)
+         [] kind = "stEE" -> TStruct(i, <<c1, c2>>, <<FALSE, FALSE>>)
+         [] kind = "stEu" -> TStruct(i, <<c1, c2>>, <<FALSE, TRUE>>)
+         [] kind = "stuE" -> TStruct(i, <<c1, c2>>, <<TRUE, FALSE>>)
+         [] kind = "stuu" -> TStruct(i, <<c1, c2>>, <<TRUE, TRUE>>)
+         [] kind = "stEuE" -> TStruct(i, <<c1, c2, c3>>, <<FALSE, TRUE, FALSE>>)
+         [] kind = "stEEE" -> TStruct(i, <<c1, c2, c3>>, <<FALSE, FALSE, FALSE>>)
+         [] kind = "regst" -> TRegStruct(i, <<c1, c2>>)
+         [] kind = "ptrst" -> TPtrTo(i, TStruct(i + 1, <<c1, c2>>, <<FALSE, TRUE>>))
+         [] kind = "ptrsl" -> TPtrTo(i, TSlice(i + 1, <<c1, c2>>))
+         [] kind = "tslice" -> TTSlice(i, <<RLeaf(ek, RId(3 * p - 1)), RLeaf(ek, RId(3 * p))>>)
+         [] kind = "tarray" -> TTArray(i, <<RLeaf(ek, RId(3 * p - 1)), RLeaf(ek, RId(3 * p))>>)
+         [] kind = "sfprint" -> TObj(i, {"SF"}, <<SSafeString(<<A>>), SPrint(<<c1, c2>>), SUnsafeString(P(i + 1))>>, <<>>, <<>>, <<>>)
+         [] kind = "sfprintf" -> TObj(i, {"SF"}, <<SPrintf(<<A>> \o Fv \o <<32>> \o Fd, <<c1, c2>>), SSafeString(<<A>>)>>, <<>>, <<>>, <<>>)
+         [] kind = "fmprint" -> TObj(i, {"FM"}, <<>>, <<SWrite(P(i + 1)), SDiscover, SPrint(<<c1>>)>>, <<>>, <<>>)
+         \* String() panics with an arbitrary value (not nil: panic(nil) is a *runtime.PanicNilError since Go 1.21; not a
+         \* value whose own method panics at once: the slices smoke and panic hold those)
+         [] kind = "stpanx" -> TObj(i, {"ST"}, <<>>, <<>>, <<>>, <<IF c1.k = "nil" \/ c1.pan # <<>> THEN TStr(i + 1, P(i + 1)) ELSE c1>>)
+         \* (a reflect.Value is modelled as an operand only)
+         [] kind = "rvalue" -> IF p <= 4 THEN TRValue(i, c1) ELSE TSlice(i, <<c1>>)
+
+RDirs == <<Fv, Fv, Fv, FplusV, FsharpV, Fs, Fs, Fd, Fd, Fx, Fq, FT, F6v, Fm6v, F06d, FZ, Fp,
+           <<37, 32, 100>>, <<37, 43, 100>>, <<37, 46, 50, 118>>, <<37, 46, 49, 115>>, <<37, 35, 120>>, <<37, 88>>, <<37, 85>>, <<37, 99>>,
+           <<37, 111>>, <<37, 98>>, <<37, 101>>, <<37, 103>>, <<37, 116>>, <<37, 51, 115>>, <<37, 45, 52, 113>>, <<37, 48, 53, 118>>>>
+RLits == << <<>>, <<>>, <<A>>, <<32>>, <<A, 58>>, <<194, 186>>, <<37, 37>>, <<A, 32>> >>
+RECURSIVE RFormat(_, _, _)
+RFormat(n, j, m) == IF j > m THEN PickOf(RLits, H(n, 900 + j, 4))
+                    ELSE PickOf(RLits, H(n, 900 + j, 4)) \o PickOf(RDirs, H(n, 900 + j, 5)) \o RFormat(n, j + 1, m)
+RCase(n) ==
+  LET m  == 1 + (H(n, 1, 6) % 3)                                 \* operands
+      ts == [j \in 1..m |-> RGen(n, j + 1, 3)]
+      e  == H(n, 1, 7) % 20
+      \* directives: as many as operands; sometimes one more (MISSING), one fewer (EXTRA), an explicit index, a dangling %
+      nd == CASE e = 12 -> m + 1 [] e = 13 -> m - 1 [] OTHER -> m
+      f0 == RFormat(n, 1, nd)
+      f  == CASE e = 14 -> f0 \o <<37>> [] e = 15 -> <<37, 91, 49, 93, 118, 32>> \o f0 [] e = 16 -> <<37, 91, 50, 93, 118>> \o f0 [] OTHER -> f0
+  IN CASE e \in {0, 1} -> Case("Sprint", <<>>, ts, <<>>)
+       [] e = 2 -> Case("Sprintln", <<>>, ts, <<>>)
+       [] e \in {3, 4} -> Case("Errorf", Fw \o <<58, 32>> \o RFormat(n, 2, m), ts, <<>>)
+       [] e = 5 -> Case("Errorf", RFormat(n, 1, m - 1) \o <<58, 32>> \o Fw, ts, <<>>)
+       [] OTHER -> Case("Sprintf", f, ts, <<>>)
+RChunk == 16
+RndRoots == {<<"rnd", r>> : r \in 1..(RndN \div RChunk)}
+RndExpand(r) == {RCase(n) : n \in ((r[2] - 1) * RChunk + 1)..(r[2] * RChunk)}
+
 Roots     == CASE Slice = "smoke" -> SmokeRoots
                [] Slice \in {"cls", "qcls"} -> ClsRoots
                [] Slice = "wrap" -> WrapRoots
@@ -375,6 +494,7 @@ Roots     == CASE Slice = "smoke" -> SmokeRoots
                [] Slice \in {"errorf", "qerrorf"} -> ErrRoots
                [] Slice = "hook" -> HookRoots
                [] Slice = "dir" -> DirRoots
+               [] Slice = "rnd" -> RndRoots
 Expand(r) == CASE Slice = "smoke" -> SmokeExpand(r)
                [] Slice \in {"cls", "qcls"} -> ClsExpand(r)
                [] Slice = "wrap" -> WrapExpand(r)
@@ -383,6 +503,7 @@ Expand(r) == CASE Slice = "smoke" -> SmokeExpand(r)
                [] Slice \in {"errorf", "qerrorf"} -> ErrExpand(r)
                [] Slice = "hook" -> HookExpand(r)
                [] Slice = "dir" -> DirExpand(r)
+               [] Slice = "rnd" -> RndExpand(r)
 
 ---------------------------------------------------------------------------
 VARIABLE root
